@@ -32,3 +32,54 @@ def match(prop, case, out):
         except Exception as ex:  # a matcher that cannot decide does not match
             vlib.log(f"matcher {e.get('matcher')} raised {ex!r}")
     return None
+
+
+def _cmp_holds(v, cmp, k):
+    return {">": v > k, "<": v < k, ">=": v >= k, "<=": v <= k, "=": v == k}.get(cmp, v != k)
+
+
+def _int(v):
+    if isinstance(v, dict):
+        for key in ("I64", "I32"):
+            if key in v:
+                return v[key]
+    return None
+
+
+@matcher("conditional_writer_conflict")
+def conditional_writer_conflict(entry, case, out):
+    """C20 known finding: a conditional delete / update evaluates its condition on a snapshot and
+    applies the result later. The failure is attributed to it only if (1) it is a handler-level
+    history, (2) some conditional statement runs in one thread while ANOTHER thread writes tuples
+    that its condition matches (explicit tuples that satisfy the condition, or any other
+    conditional statement on the relation), and (3) the very same case passes under the serial
+    schedule (twin run). Anything else is a new violation."""
+    if case.get("level") != "handler" or (out.get("failure") or {}).get("oracle") != "not_linearizable":
+        return False
+    threads = case.get("threads", [])
+    conflict = False
+    for ti, ops in enumerate(threads):
+        for op in ops:
+            if op.get("op") not in ("cond_delete", "update"):
+                continue
+            for tj, other in enumerate(threads):
+                if tj == ti:
+                    continue
+                for o2 in other:
+                    if o2.get("rel") != op.get("rel") or o2.get("kg") != op.get("kg"):
+                        continue
+                    if o2.get("op") in ("cond_delete", "update"):
+                        conflict = True
+                    elif o2.get("op") in ("insert", "delete"):
+                        for t in o2.get("tuples", []):
+                            v = _int(t[op["col"]]) if len(t) > op["col"] else None
+                            if v is not None and _cmp_holds(v, op["cmp"], op["k"]):
+                                conflict = True
+                            # an update moves column 1 by `add`: a tuple the update would produce also conflicts
+    if not conflict:
+        return False
+    twin = dict(case)
+    twin["sched"] = "serial"
+    twin["crash"] = None
+    tout = vlib.execute([twin], jobs=1)[0]
+    return tout.get("status") == "ok"
